@@ -40,10 +40,12 @@ def orNLegal (ins : List Nat) : Bool := !ins.isEmpty
 /-- `Nand2(a, b, r)` bitwise.py:397-423: `Mid` has the width of `a` -/
 def nand2 (aw rw a b : Nat) : Nat := Leaf.not1 rw (Leaf.and2 aw a b)
 
-/-- `Nor2(a, b, r)` bitwise.py:460-486: `Mid` has the width of `a` -/
-def nor2 (aw rw a b : Nat) : Nat := Leaf.not1 rw (Leaf.or2 aw a b)
+/-- `Nor2(a, b, r)` bitwise.py:460-486: `Mid` has the width of `r` (since /repo commit aa5aa9b; before it `Mid` had the width
+    `aw` of `a`, which dropped the upper bits of a wider `b`).  `aw` is kept in the signature for the callers; it no longer
+    influences the value. -/
+def nor2 (_aw rw a b : Nat) : Nat := Leaf.not1 rw (Leaf.or2 rw a b)
 
-/-- `Nor(ins, r)` bitwise.py:425-457: `Mid` has the width of `r` (since /repo commit 5a57ad0; before it `Mid` had the width of
+/-- `Nor(ins, r)` bitwise.py:425-457: `Mid` has the width of `r` (since /repo commit 99fa1f2; before it `Mid` had the width of
     `ins[0]`, which dropped the upper bits of wider later inputs) -/
 def norN (rw : Nat) (ins : List Nat) : Nat := Leaf.not1 rw (orN rw ins)
 
